@@ -11,7 +11,7 @@ use serde_json::{json, Value};
 use std::io::{BufRead, Write};
 
 thread_local! {
-    static RT: tokio::runtime::Runtime = tokio::runtime::Builder::new_current_thread().enable_all().build().unwrap();
+    static RT: tokio::runtime::Runtime = tokio::runtime::Builder::new_current_thread().enable_all().max_blocking_threads(1).build().unwrap();
     static POOL: repo::KeyPool = repo::KeyPool::load(&std::env::var("VERIF_KEYS").unwrap_or_else(|_| "/verif/.cache/keys".to_string()));
 }
 
@@ -19,6 +19,7 @@ fn run_object(v: &Value) -> Value {
     let p = v["p"].as_u64().unwrap_or(0);
     RT.with(|rt| POOL.with(|pool| match p {
         6 => client::run(rt, pool, v),
+        15 => client::run_single(rt, pool, v),
         _ => json!([999]),
     }))
 }
